@@ -144,6 +144,9 @@ def run_ob(tr):
         except Exception as e:  # noqa: BLE001
             fail("python/snapshot-written-by-rust-rejected-by-python", repr(e), tr)
     if tr.get("snap_out"):
+        # the same path is written twice, the longer (pretty) document first: what Rust then loads
+        # must be the second document alone
+        ob.save_json_snapshot(tr["snap_out"], pretty=True)
         ob.save_json_snapshot(tr["snap_out"], pretty=(tr["id"] % 3 == 0))
         count("python_snapshots_written")
     # drain probe: sweep both sides, the trades expose the hidden queue order
@@ -389,6 +392,25 @@ def recompute_named(orders, tick, trade_vol):
     return named
 
 
+def frames_length_sweep(dp):
+    """both data-frame helpers on every history length 0..13 (real records of a StepEnv run)"""
+    tr = {"id": -2, "kind": "frames", "seed": 1, "tick": 1, "calls": [["13 asks of volume 1 at 50, 13 market buys of volume 1, step; helpers on every prefix length"]]}
+    env = core.StepEnv(1, 0, 1, 1000)
+    for i in range(13):
+        env.place_order(False, 1, 100 + i, price=50)
+    env.step()
+    for i in range(13):
+        env.place_order(True, 1, 200 + i)
+    env.step()
+    orders, trades = tl(env.get_orders()), tl(env.get_trades())
+    if len(trades) < 13 or len(orders) < 26:
+        fail("python/abort/frames-setup", "expected 13 trades and 26 orders, got %d / %d" % (len(trades), len(orders)), tr)
+        return
+    for n in range(0, 14):
+        check_frames(dp, orders[:n], trades[:n], tr)
+        count("frame_lengths_checked")
+
+
 def bulk_numpy_scenario():
     """more than 65535 orders on one price level, volumes beyond 2^31, through StepEnvNumpy"""
     tr = {"id": -1, "kind": "bulk", "seed": 3, "tick": 1, "calls": [["70000 bids of volume 1 at 50, 3 asks of 1e9 at 60, step, 2 asks of volume 2 at 50, step"]]}
@@ -420,7 +442,14 @@ def run_env_c19(tr, dp):
     named, hist = exp["named"], exp["history"]
     # the documented quantities follow from the order list alone; what the Rust core reports for
     # them must agree (a core whose level functions drift from its own orders is caught here)
-    named2 = recompute_named(tl(env.get_orders()), tr["tick"], named["trade_vol"])
+    # "trade volume (in the last step)": from the trade log and the clock alone, where the window of the
+    # last step is unambiguous (step size far above the batch size)
+    tv = named["trade_vol"]
+    ss = tr.get("step_size", 100)
+    if ss >= 100 and any(c[0] == "step" for c in tr["calls"]):
+        now = env.time
+        tv = sum(t[3] for t in tl(env.get_trades()) if now - ss <= t[0] < now)
+    named2 = recompute_named(tl(env.get_orders()), tr["tick"], tv)
     for k, v in named2.items():
         if named[k] != v:
             fail("python/layout/documented-quantity-differs-from-order-list/%s" % k.rstrip("0123456789"), "%s: the core reports %r, the resting orders give %r" % (k, named[k], v), tr)
@@ -450,7 +479,8 @@ def main():
     if mode == "c19" and SHARD == 0:
         try:
             bulk_numpy_scenario()
-            n += 1
+            frames_length_sweep(dp)
+            n += 2
         except BaseException as e:  # noqa: BLE001
             if isinstance(e, (KeyboardInterrupt, SystemExit)):
                 raise
